@@ -951,3 +951,100 @@ func VerifHarness_C05_Atoms() {
 	vExpect(g.toks, s, valid, "atom")
 	vsymReach("C05_atoms")
 }
+
+// F7 queries with several label lists (groupings before/after, nested
+// groupings, on/ignoring and group_left/group_right lists): every list of the
+// parsed structure holds the labels its own text denotes.
+var vLabelLists = [][]string{{"a"}, {"b", "c"}, {"c"}, {"a", "b"}}
+
+func (g *vGen) genList(tag string) string {
+	return g.genIdents(vLabelLists[vsymChoice(tag, len(vLabelLists))])
+}
+
+// genGroupedAgg emits `sum by (L) (avg_over_time(sel | unwrap v [1m]) without (L'))` with the
+// outer grouping before or after; returns its rendering.
+func (g *vGen) genGroupedAgg(tag string, after bool) string {
+	g.t(lexer.Sum, "sum")
+	outer := ""
+	if !after {
+		g.t(lexer.By, "by")
+		g.t(lexer.OpenParen, "(")
+		outer = g.genList(tag + "_outer")
+		g.t(lexer.CloseParen, ")")
+	}
+	g.t(lexer.OpenParen, "(")
+	g.t(lexer.AvgOverTime, "avg_over_time")
+	g.t(lexer.OpenParen, "(")
+	g.t(lexer.OpenBrace, "{")
+	g.ident("j")
+	g.t(lexer.Eq, "=")
+	g.str(tag)
+	g.t(lexer.CloseBrace, "}")
+	g.t(lexer.Pipe, "|")
+	g.t(lexer.Unwrap, "unwrap")
+	g.ident("v")
+	g.t(lexer.OpenBracket, "[")
+	g.t(lexer.Duration, "1m")
+	g.t(lexer.CloseBracket, "]")
+	g.t(lexer.CloseParen, ")")
+	g.t(lexer.Without, "without")
+	g.t(lexer.OpenParen, "(")
+	inner := g.genList(tag + "_inner")
+	g.t(lexer.CloseParen, ")")
+	g.t(lexer.CloseParen, ")")
+	if after {
+		g.t(lexer.By, "by")
+		g.t(lexer.OpenParen, "(")
+		outer = g.genList(tag + "_outer")
+		g.t(lexer.CloseParen, ")")
+	}
+	return "vec#" + strconv.Itoa(int(VectorOpSum)) + "<range#" + strconv.Itoa(int(RangeOpAvg)) + "{j" + vOp(OpEq) + vQ(tag) + "}" +
+		"[" + strconv.FormatInt(int64(time.Minute), 10) + "] unwrap :v{} without" + inner + "> by" + outer
+}
+
+func VerifHarness_C05_LabelLists() {
+	g := &vGen{}
+	after := vsymBool("grouping_after")
+	left := g.genGroupedAgg("l", after)
+	g.t(lexer.Div, "/")
+	mod := ""
+	switch vsymChoice("modifier", 4) {
+	case 1:
+		g.t(lexer.On, "on")
+		g.t(lexer.OpenParen, "(")
+		mod = "on" + g.genList("on")
+		g.t(lexer.CloseParen, ")")
+	case 2:
+		g.t(lexer.Ignoring, "ignoring")
+		g.t(lexer.OpenParen, "(")
+		mod = "ignoring" + g.genList("on")
+		g.t(lexer.CloseParen, ")")
+		g.t(lexer.GroupLeft, "group_left")
+		g.t(lexer.OpenParen, "(")
+		mod += " left" + g.genList("include")
+		g.t(lexer.CloseParen, ")")
+	case 3:
+		g.t(lexer.On, "on")
+		g.t(lexer.OpenParen, "(")
+		mod = "on" + g.genList("on")
+		g.t(lexer.CloseParen, ")")
+		g.t(lexer.GroupRight, "group_right")
+		mod += " right()"
+	}
+	right := g.genGroupedAgg("r", false)
+	e, err := vParse(g.toks)
+	vsymAssert(err == nil, "label lists: a valid query is accepted")
+	b, ok := e.(*BinOpExpr)
+	vsymAssert(ok && b.Op == OpDiv, "label lists: the query is a division")
+	vsymAssert(vShow(b.Left) == left, "label lists: left operand's groupings are the ones its text denotes")
+	vsymAssert(vShow(b.Right) == right, "label lists: right operand's groupings are the ones its text denotes")
+	got := ""
+	if b.Modifier.Op != "" {
+		got = b.Modifier.Op + vLabels(b.Modifier.OpLabels)
+		if b.Modifier.Group != "" {
+			got += " " + b.Modifier.Group + vLabels(b.Modifier.Include)
+		}
+	}
+	vsymAssert(got == mod, "label lists: the matching modifier's lists are the ones its text denotes")
+	vsymReach("C05_label_lists")
+}
